@@ -314,14 +314,14 @@ type SideState struct {
 
 // FlowState is the model of one aggregated flow record.
 type FlowState struct {
-	End      uint32
-	Tot      [4]uint64
-	Dlt      [4]uint64
-	Thr      [2]uint64
-	TCPState string
-	S, D     SideState
-	Records  int
-	BothSeen bool
+	End          uint32
+	Tot          [4]uint64
+	Dlt          [4]uint64
+	Thr          [2]uint64
+	TCPState     string
+	S, D         SideState
+	Records      int
+	BothSeen     bool
 	ResetBetween bool
 	resetSeen    bool
 }
